@@ -233,7 +233,13 @@ def run_case(spec, j):
     s = {'est': name, 'params': cfg, 'ds': dss,
          'seed': int(rng.randint(1000))}
     f = common.build(s, ds, preprocessor='array' if rep == 1 else None)
-    c = clone(f.est)
+    try:
+      c = clone(f.est)
+    except Exception as ex:
+      j.violated('C18.clone-same-model',
+                 dict(det0, params=s['params'], why='clone raised',
+                      raised=repr(ex)[:200]), mechanism='clone-raised')
+      continue
     params_before = fp_map(f.est.get_params(deep=False))
     with Quiet():
       try:
@@ -254,9 +260,9 @@ def run_case(spec, j):
             dict(det0, params=s['params'], changed=changed))
     # a clone taken *after* fitting is an unfitted estimator that behaves
     # identically when fitted
-    c2 = clone(f.est)
     with Quiet():
       try:
+        c2 = clone(f.est)
         c2.fit(*f.args, **f.kwargs)
         j.close('C18.clone-same-model', c2.get_mahalanobis_matrix(), Ma,
                 1e-9 * max(np.abs(Ma).max(), 1e-300),
